@@ -81,4 +81,16 @@ CHECKS = {
         text="Exhaustive small scope over the numeral grammar: every string must be rejected when it is a number in no notation, decoded to its value when 0x-hex, and decoded to the denoted value if accepted at all otherwise; the machine itself is cross-checked against math/big on every string (spec bug = exit 2). Round trips cover every vector of row lengths over 0..3 for batch 0..3 (rectangular, ragged, empty), magnitudes 0, 1, r-1, r, 2^256-1, leading-zero values and over-long values, and index extremes; index literals outside 32 bits must fail.",
         note="'Identical' = equal values and equal dimensions (nil vs empty slice not distinguished). Strings longer than 5 only through named literals.",
     ),
+    "C11": dict(
+        level="model_checking",
+        technique="TLA+ file-system machine KeysFile.tla (write in either format, read, convert-to-raw, crash) model-checked for RoundTrip over all operation sequences; TLC-simulated sequences executed in one process on several real Groth16 systems with byte-exact comparison and cross prove/verify",
+        text="Model level: every sequence of <= 4..5 write/read/convert operations over two files and 2..4 systems satisfies RoundTrip and LastReadFaithful (reader mutants refuted). Code level: simulated sequences plus four fixed ones (two different systems written before a read; each format; conversion) run on real insertion (2,1) and deletion (1,2) systems — depth != batch so a swap is visible; after every read/convert the loaded system must equal the system the spec says (depth, batch, byte-exact pk/vk/cs) and the original/reloaded pair must verify each other's proofs. The thorough tier goes through the `convert-to-raw` command and adds independent setups of equal dimensions.",
+        note="Trusted: byte-exact re-serialisation as the notion of key equality; Groth16 verify. Dimensions are small ((2,1), (1,2), (3,2)).",
+    ),
+    "C15": dict(
+        level="fault_enumeration",
+        technique="KeysFile.tla Write;Crash(cut);Read enumerated by TLC for EVERY byte offset of files written by the code (synthetic systems) and for offset classes of real 50-85 MB files, with the actual section lengths; each cut replayed into UnsafeReadFrom under recover + watchdog, ReadSystemFromFile and the CLI commands",
+        text="Fault = the file ends at offset `cut`. For two synthetic Groth16 systems wrapped in prover.ProvingSystem every offset 0..len-1 of both formats is read (exhaustive); for real (1,1) systems the classes of KeysFile.tla (header bytes, +-64 around each section boundary, strides through the proving key and the constraint system, the tail). Every prefix must yield an error — no load, no panic, no hang; `start|prove|verify|convert-to-raw` on truncated files must exit non-zero. The reader mutants 'EOF of the last section ignored' and 'stop after the verifying key' are refuted at the model level.",
+        note="Real files are covered by offset classes (about 600 per format in the thorough tier), not every one of 8*10^7 offsets; internal sub-structure of the proving key is reached by strides, not by name.",
+    ),
 }
